@@ -820,6 +820,21 @@ class Project:
               break
         if len(selfstart) == 1:
           cb = selfstart[0]
+      if cb is None:
+        # ... or a callable object made and called here:
+        # `collect = _Collector(root=cfg)` ... `collect(cfg)`
+        objs = []
+        for n in ast.walk(outer.node):
+          if isinstance(n, ast.Assign) and len(n.targets) == 1 and isinstance(
+              n.targets[0], ast.Name) and isinstance(n.value, ast.Call):
+            cq = self.resolve(n.value.func, outer)
+            m = self.find_method(cq, '__call__') if cq in self.classes else None
+            if m is not None and any(
+                isinstance(c, ast.Call) and isinstance(c.func, ast.Name) and
+                c.func.id == n.targets[0].id for c in ast.walk(outer.node)):
+              objs.append((m, self._instance_fields(cq, n.value)))
+        if len(objs) == 1:
+          cb = CallbackView(objs[0][0], 1, outer, {}, objs[0][1] or {'': None})
       if cb is None and getattr(self, 'ctx', None) is not None:
         # the closure written as a module-level function that takes its free
         # variables as parameters
